@@ -40,7 +40,7 @@ def build_package(measure: int, channel: int, slots: list) -> bytes:
             out += b"\x00\x00\x00\x00"
         else:
             v, vol, pan, typ = s
-            out += struct.pack("<hBB", v, (vol << 4) | pan, typ)
+            out += struct.pack("<HBB", v & 0xFFFF, (vol << 4) | pan, typ)  # the value is 16 bits: any non-zero pattern is a note
     return out
 
 
